@@ -66,7 +66,9 @@ MerlinEv == /\ pc = "run" /\ l <= NRec
 PMSMEv == /\ Is("PMSM") /\ pc = "run"
           /\ LET e == Rec[l] IN
              \* (the independent prover does not go through a precomputed table: nothing to check for it here)
-             /\ cfg.reference \/ (e.count = 1 /\ e.nstat = e.ntable /\ e.ndyn_s = e.ndyn_p /\ e.ndyn_s = cfg.t /\ e.nstat = 2 * cfg.n * cfg.cap)
+             \* the library goes through the table once: then the static part has one scalar per table entry (2*n*capacity). A
+             \* prover that does not use the table at all has nothing to check here (the coordinates of A are checked anyway)
+             /\ cfg.reference \/ e.count = 0 \/ (e.count = 1 /\ e.nstat = e.ntable /\ e.ndyn_s = e.ndyn_p /\ e.nstat = 2 * cfg.n * cfg.cap)
              /\ \A p \in 1..Len(e.stat) :
                   LET xx == e.stat[p][2] * cfg.n + e.stat[p][3] IN
                   /\ e.stat[p][1] \in {"Gi", "Hi"}
